@@ -158,8 +158,64 @@ def make_expiry_case(rng, wrap=False):
     return dict(case, ops=list(w.oplog))
 
 
+def make_strike_case(rng, wrap=False):
+    """Directed schedule: a partial-reliability channel sends a message of many fragments of which only the head is
+    in flight (the tail waits in the outbound queue), an early fragment is lost while later ones arrive, and the
+    SACKs with gap blocks are delivered one by one: the third strike marks the fragment for fast retransmission /
+    gives the message up while the SACK is still being processed (send-side queues change inside the SACK handler)."""
+    case = make_case(rng, "clean", 0, wrap)
+    case["profile"] = "strike"
+    w = W.World(dict(case, ops=[]))
+    w.oplog = []
+    w.apply(["start", "A"])
+    w.apply(["start", "B"])
+    w.heal(400)
+    n = rng.choice("AB")
+    other = "B" if n == "A" else "A"
+    params = dict(label="pr", ordered=rng.random() < 0.5)
+    if rng.random() < 0.75:
+        params["maxRetransmits"] = rng.choice([0, 0, 1, 2])
+    else:
+        params["maxPacketLifeTime"] = rng.choice([1, 100])
+    w.apply(["create", n, params])
+    if rng.random() < 0.4:
+        w.apply(["create", n, dict(label="rel", ordered=True)])
+    w.heal(600)
+    for _round in range(rng.randrange(1, 4)):
+        w.salt += 1
+        w.apply(["send", n, 0, rng.choice("sb"), rng.choice([5000, 9000, 20000, 70000]), w.salt])
+        if len(w.ep[n].channels) > 1 and rng.random() < 0.5:
+            w.salt += 1
+            w.apply(["send", n, 1, "b", rng.choice([10, 3000]), w.salt])
+        while w.ep[n].tasks:
+            w.apply(["task", n])
+        # lose one (or two) of the first datagrams in flight, deliver the later ones
+        lost = 0
+        for _ in range(rng.choice([1, 1, 2])):
+            if w.net[other]:
+                w.apply(["drop", other, rng.choice([0, 0, 1]) if len(w.net[other]) > 1 else 0])
+                lost += 1
+        if rng.random() < 0.3:
+            w.apply(["clock", rng.choice([200, 3000])])
+        for _ in range(rng.randrange(3, 9)):
+            if w.net[other]:
+                w.apply(["deliver", other, 0])
+            # the SACKs reach the sender one by one; whatever it transmits in response is delivered later
+            if w.net[n]:
+                w.apply(["deliver", n, 0])
+            if rng.random() < 0.3 and w.ep[n].tasks:
+                w.apply(["task", n])
+        if rng.random() < 0.5:
+            w.heal(600)
+    prof = dict(PROFILES["mixed-pr"], channels=2, sizes=[10, 3000, 9000])
+    W.random_ops(rng, case, rng.choice([0, 30, 60]), prof, world=w)
+    return dict(case, ops=list(w.oplog))
+
+
 def _gen(args):
     seed, profile_name, steps, wrap = args
+    if profile_name == "strike":
+        return make_strike_case(random.Random(seed), wrap)
     if profile_name == "reuse":
         return make_reuse_case(random.Random(seed), wrap)
     if profile_name == "expiry":
